@@ -99,7 +99,7 @@ func isASCII(s string) bool {
 func TestC01Exhaustive(t *testing.T) {
 	col := coll("C01", "exhaustive")
 	maxN := pick(5, 8)
-	col.Rule = fmt.Sprintf("all ordered forests with <=%d nodes x names over {a,b} x %d spellings x %d branch tuples x 2 code paths", maxN, len(model.Panel), len(branchPanel))
+	col.Rule = fmt.Sprintf("all ordered forests with <=%d nodes x names over {a,b} x %d spellings x %d branch tuples x 2 code paths, plus all forests with one node less over {a, a/a} (names that spell the path of another node)", maxN, len(model.Panel), len(branchPanel))
 	i := 0
 	model.EnumForests(maxN, []string{"a", "b"}, func(f model.Forest) {
 		i++
@@ -121,13 +121,29 @@ func TestC01Exhaustive(t *testing.T) {
 			}
 		}
 	})
+	// names that spell the path of another node: all forests over {a, a/a} (one spelling, both code paths)
+	model.EnumForests(maxN-1, []string{"a", "a/a"}, func(f model.Forest) {
+		i++
+		if i%nshards != shard {
+			return
+		}
+		for _, noIter := range []bool{false, true} {
+			c := c01Case{Forest: f, Sp: model.Plain2, Branch: branchPanel[i%len(branchPanel)], NoIter: noIter}
+			c01Record(col, c)
+			if msg := c01Check(c); msg != "" {
+				violation(t, "C01", "c01", c, msg)
+			}
+		}
+	})
 	col.Exhaustive = true
 }
 
 func c01Gen() *rapid.Generator[c01Case] {
 	return rapid.Custom(func(t *rapid.T) c01Case {
 		var names *rapid.Generator[string]
-		switch rapid.IntRange(0, 4).Draw(t, "pool") {
+		switch rapid.IntRange(0, 5).Draw(t, "pool") {
+		case 5:
+			names = sampled(poolSlashTiny)
 		case 0:
 			names = sampled(poolTiny)
 		case 1:
@@ -146,6 +162,8 @@ func c01Gen() *rapid.Generator[c01Case] {
 		var f model.Forest
 		if d := rapid.IntRange(0, 29).Draw(t, "deep"); d <= 1 {
 			f = genDeepForest(names, false).Draw(t, "deepForest")
+		} else if d == 3 {
+			f = genWideRepeat().Draw(t, "wideRepeat")
 		} else if d == 2 {
 			f = genWideForest(sampled(poolTiny)).Draw(t, "wideForest") // documents beyond 4 KiB / 64 KiB
 		} else {
